@@ -700,6 +700,43 @@ func c08ItemLoops(c *Ctx, a *sketchAnchors) {
 					}
 					_ = si
 					c.R.check(mentionsN, rule, key, shortFn(f), c.ipos(iff), "loop exit decided by comparing with the decoded item count itself (a counter against N, or N minus what was consumed against 0), or an error return", "exit condition "+ct.Key())
+					// a counter against N reads exactly N items: the counter is φ(0, counter + 1) and the loop goes on
+					// exactly while counter < N (≤, a start at 1, or a step of 2 read one item too many or too few)
+					if bo, isBin := iff.Cond.(*ssa.BinOp); isBin && mentionsN {
+						var ctr *ssa.Phi
+						ctrLeft := false
+						if p, ok := bo.X.(*ssa.Phi); ok && in[p.Block()] {
+							ctr, ctrLeft = p, true
+						} else if p, ok := bo.Y.(*ssa.Phi); ok && in[p.Block()] {
+							ctr = p
+						}
+						if ctr != nil {
+							var init *ssa.Const
+							var step *ssa.BinOp
+							for _, e := range ctr.Edges {
+								if k, ok := e.(*ssa.Const); ok {
+									init = k
+								}
+								if b2, ok := e.(*ssa.BinOp); ok && (b2.X == ssa.Value(ctr) || b2.Y == ssa.Value(ctr)) {
+									step = b2
+								}
+							}
+							if init != nil && step != nil && step.Op == token.ADD {
+								// an ascending counter
+								one := false
+								if k, ok := step.Y.(*ssa.Const); ok && k.Value != nil && k.Value.String() == "1" {
+									one = true
+								}
+								if k, ok := step.X.(*ssa.Const); ok && k.Value != nil && k.Value.String() == "1" {
+									one = true
+								}
+								strict := ctrLeft && bo.Op == token.LSS || !ctrLeft && bo.Op == token.GTR
+								zero := init.Value != nil && init.Value.String() == "0"
+								c.R.check(strict && zero && one, rule, key+"/exactly-N", shortFn(f), c.ipos(iff), "counter = φ(0, counter + 1), loop while counter < N: exactly the announced number of items is read",
+									fmt.Sprintf("start %s, step %s, test %s", init.Name(), step.String(), bo.String()))
+							}
+						}
+					}
 				}
 			}
 		}
